@@ -262,6 +262,20 @@ func Y(site string) {
 	t.park(site)
 }
 
+// Progress is called by a simulated device whenever the calling task moved data: the spin guard counts statements executed
+// without ever blocking, and a task that keeps transferring bytes without having to wait for them is not spinning.
+//
+//go:norace
+func Progress() {
+	s := active.Load()
+	if s == nil {
+		return
+	}
+	if s.curGoid.Load() == runtime.VerifGoid() && s.current != nil {
+		s.current.spin = 0
+	}
+}
+
 // Yield is Y for hand-written harness code: call it after any real blocking operation.
 //
 //go:norace
